@@ -145,6 +145,9 @@ func c12FileSets() [][]string {
 	return [][]string{{"doc.go", "m1.go", c12LongName, "crlf.go"}, {"m1.go", "m2.go", "n.go", "gen.go"}, {"nonl.go", "crlf.go", "ugly.go", "imp.go"}, {"bom.go", "cgo.go", "raw.go", "generic.go"}, {"hl.go", "m1.go", "nonl.go", "hl2.go"}, {"big.go"}}
 }
 
+// c12Modes: files of the catalogue that carry other permission bits than 0644
+var c12Modes = map[string]os.FileMode{"m1.go": 0o755, "m2.go": 0o600, "nonl.go": 0o444, "imp.go": 0o664}
+
 // c12BigFile: more than 64 KiB, with sites at the start, in the middle and at the end
 func c12BigFile() string {
 	var b strings.Builder
@@ -402,6 +405,7 @@ func c12Run(env *core.Env, ci any) core.Outcome {
 			r        drive.Result
 			snapDiff string
 			content  map[string]string
+			modes    map[string]os.FileMode
 		}
 		do := func(mode ...string) obs {
 			tree := map[string]string{}
@@ -423,6 +427,14 @@ func c12Run(env *core.Env, ci any) core.Outcome {
 			for _, n := range names {
 				if strings.HasPrefix(n, "hl") {
 					if err := os.Link(sb.path("t/"+n), sb.path("link-of-"+n)); err != nil {
+						panic("harness: " + err.Error())
+					}
+				}
+			}
+			// permission bits that differ from the default: they survive a rewrite
+			for n, m := range c12Modes {
+				if _, ok := c.Files[n]; ok {
+					if err := os.Chmod(sb.path("t/"+n), m); err != nil {
 						panic("harness: " + err.Error())
 					}
 				}
@@ -452,9 +464,12 @@ func c12Run(env *core.Env, ci any) core.Outcome {
 			r := sb.run(real, "t", args, "")
 			r.Stdout = strings.ReplaceAll(r.Stdout, sb.Root, "$ROOT")
 			r.Stderr = strings.ReplaceAll(r.Stderr, sb.Root, "$ROOT")
-			o := obs{r: r, snapDiff: before.Diff(sb.snap(""), false), content: map[string]string{}}
+			o := obs{r: r, snapDiff: before.Diff(sb.snap(""), false), content: map[string]string{}, modes: map[string]os.FileMode{}}
 			for _, n := range names {
 				o.content[n] = sb.read("t/" + n)
+				if st, err := os.Stat(sb.path("t/" + n)); err == nil {
+					o.modes[n] = st.Mode().Perm()
+				}
 			}
 			return o
 		}
@@ -486,6 +501,14 @@ func c12Run(env *core.Env, ci any) core.Outcome {
 		}
 		if w.r.Exit != 0 {
 			return core.Outcome{Skip: "default mode failed: " + firstWords(w.r.Stderr, 8)}
+		}
+		// the default mode keeps the permission bits of the files it rewrites
+		for n, m := range c12Modes {
+			if _, ok := c.Files[n]; ok && !strings.Contains(w.snapDiff, "harness") {
+				if got := w.modes[n]; got != m {
+					return bad("mode-changed", "the default mode changed the permission bits of %s: %v, was %v", n, got, m)
+				}
+			}
 		}
 		// expectations derived from the default-mode run (ground truth W)
 		W := w.content
